@@ -561,11 +561,11 @@ def c06(tier):
     specs = []
     for fl in (['asan'] if q else ['asan', 'gasan']):
         for i, c in enumerate(chunks(gs, 4)):
-            specs.append({'seed': common.seed() * 13 + i, 'grammars': [g.to_json() for g in c], 'flavour': fl, 'modes': [0, 3, 4], 'tier': tier, 'timeout': 1200})
+            specs.append({'seed': common.seed() * 13 + i, 'grammars': [g.to_json() for g in c], 'flavour': fl, 'modes': [0, 3, 4], 'tier': tier, 'timeout': 150 if q else 600})
     n = 70000 if q else 300000
     deep_inputs = [[b'(' * n + b'a' + b')' * n, b'(' * n + b'a' + b')' * (n - 1), b'(' * n], [b'a' * (2 * n)], [b'a' * (4 * n)], [b'i+' * n + b'(i+i)', b'i+' * n]]
     for g, ins in zip(deep, deep_inputs):
-        specs.append({'seed': 1, 'grammars': [g.to_json()], 'flavour': 'asan', 'modes': [0, 3, 4], 'tier': tier, 'timeout': 1200, 'explicit_inputs': [[d.hex() for d in ins]]})
+        specs.append({'seed': 1, 'grammars': [g.to_json()], 'flavour': 'asan', 'modes': [0, 3, 4], 'tier': tier, 'timeout': 300 if q else 1200, 'explicit_inputs': [[d.hex() for d in ins]]})
     merge(ck, common.pmap(sfc.worker, specs))
     merge(ck, common.pmap(sfc.regex_worker, [(common.seed() * 17 + i, 400 if q else 4000, 'asan') for i in range(8 if q else 32)]))
     ctp = rxc.gen_patterns(rnd, 48 if q else 600, max_positions=20) + rxc.rr.hand_corpus()[:24]
